@@ -752,6 +752,10 @@ func (g *gen) op(pool []Recipe, hot []int, fs faultSet, nested bool) Op {
 			op.Pt = [2]float64{r.Coord(-3, 3), r.Coord(-3, 3)}
 		}
 	}
+	if selfHangFamily(op.M) && op.A == op.R && n > 1 && !r.Chance(0.05) {
+		// see selfHangFamily: mostly avoid testing an object against itself here
+		op.A = (op.R + 1 + r.Intn(n-1)) % n
+	}
 	if usesCallback(op.M) {
 		if op.M != "ForEach" {
 			// search windows: often large so that many callbacks happen
@@ -766,9 +770,9 @@ func (g *gen) op(pool []Recipe, hot []int, fs faultSet, nested bool) Op {
 		case k < 65 && fs.cancel:
 			cb.CancelAt = r.Range(1, 4)
 		case k < 78 && fs.cbpanic:
-			cb.PanicAt = r.Range(1, 3)
+			cb.PanicAt = r.Pick(1, 2, 3, 5, 9)
 		case k < 84 && fs.goexit && !nested:
-			cb.GoexitAt = r.Range(1, 3)
+			cb.GoexitAt = r.Pick(1, 2, 3, 5, 9)
 		case fs.reenter && !nested:
 			cb.ReenterAt = r.Range(1, 2)
 			sub := g.op(pool, hot, fs, true)
@@ -969,6 +973,9 @@ func (g *gen) crowd(s *Spec, hot []int, fs faultSet) {
 				}
 				ops[i].Prefix, ops[i].Cap = "", 0
 			}
+			if selfHangFamily(ops[i].M) && ops[i].A == ops[i].R && len(s.Pool) > 1 {
+				ops[i].A = (ops[i].R + 1 + r.Intn(len(s.Pool)-1)) % len(s.Pool)
+			}
 		}
 		s.Tasks = append(s.Tasks, ops)
 	}
@@ -1006,6 +1013,9 @@ func (g *gen) marathon(s *Spec, hot []int, fs faultSet, tier string) {
 	for i := range rep {
 		rep[i] = g.op(s.Pool, hot, fs, false)
 		rep[i].R = h
+		if selfHangFamily(rep[i].M) && rep[i].A == h && len(s.Pool) > 1 {
+			rep[i].A = (h + 1 + r.Intn(len(s.Pool)-1)) % len(s.Pool)
+		}
 		if rep[i].CB != nil {
 			rep[i].CB = &CB{CancelAt: rep[i].CB.CancelAt}
 		}
@@ -1082,8 +1092,13 @@ func (g *gen) argstormOn(s *Spec, fs faultSet, target int, useTarget bool) {
 			op.Ring = r.Intn(3)
 			if usesCallback(op.M) {
 				op.CB = &CB{}
-				if fs.cancel && r.Chance(0.2) {
+				switch {
+				case fs.cancel && r.Chance(0.2):
 					op.CB.CancelAt = r.Range(1, 3)
+				case fs.cbpanic && r.Chance(0.2):
+					op.CB.PanicAt = r.Range(1, 6)
+				case fs.goexit && r.Chance(0.05):
+					op.CB.GoexitAt = r.Range(1, 6)
 				}
 			}
 			ops[i] = op
@@ -1117,13 +1132,11 @@ func (g *gen) duel(s *Spec) {
 		// the opponent is a sibling of h1: same structure, built separately,
 		// shifted a little so that the two overlap without being equal
 		sib := *cloneRecipe(&s.Pool[h1])
-		if r.Chance(0.7) {
-			if r.Chance(0.5) {
-				// whole units: lattice shapes then share exact vertices and edges
-				shiftRecipe(&sib, float64(r.Range(-2, 2)), float64(r.Range(-2, 2)))
-			} else {
-				shiftRecipe(&sib, r.Coord(-2, 2), r.Coord(-2, 2))
-			}
+		if r.Chance(0.5) {
+			// whole units: lattice shapes then share exact vertices and edges
+			shiftRecipe(&sib, float64(r.Pick(-2, -1, 1, 2)), float64(r.Range(-2, 2)))
+		} else {
+			shiftRecipe(&sib, r.Coord(0.25, 2)*r.PickF(1, -1), r.Coord(-2, 2))
 		}
 		s.Pool = append(s.Pool, sib)
 		s.Siblings = true
@@ -1155,6 +1168,20 @@ func (g *gen) duel(s *Spec) {
 		s.Tasks = append(s.Tasks, ops)
 	}
 	s.Strategy = "duel"
+}
+
+// selfHangFamily: containment tests that, on the pinned tree, never return when
+// a LineString with coinciding points is tested against ITSELF
+// (Line.ContainsLine, DESIGN.md 7.3). The systematic workload shapes avoid
+// receiver == argument for them - a run whose reference pass has to unwind a
+// call is dropped (see soloUnwound), and sweeps over LineStrings would
+// otherwise almost always be. Plain runs keep drawing such calls.
+func selfHangFamily(m string) bool {
+	switch m {
+	case "Contains", "Within", "WithinLine", "L.ContainsLine", "P.ContainsLine", "L.ContainsPoly":
+		return true
+	}
+	return false
 }
 
 // allMethods is every operation the driver knows, for sweep workloads.
@@ -1198,13 +1225,20 @@ func (g *gen) sweep(s *Spec, hot []int, fs faultSet) {
 			op.M = ms[k]
 			op.R = h
 			op.Path = append([]int(nil), path...)
+			if selfHangFamily(op.M) && op.A == op.R && len(s.Pool) > 1 {
+				op.A = (op.R + 1 + r.Intn(len(s.Pool)-1)) % len(s.Pool)
+			}
 			op.Prefix, op.Cap = "", 0
 			op.Scribble = false
 			op.Reuse = op.M == "AppendJSON" && r.Chance(0.4)
 			if usesCallback(op.M) {
-				op.CB = &CB{} // plain visiting (an abandoned task would cut the sweep short)
-				if fs.cancel && r.Chance(0.2) {
+				op.CB = &CB{} // never Goexit here: an abandoned task would cut the sweep short
+				switch {
+				case fs.cancel && r.Chance(0.2):
 					op.CB.CancelAt = r.Range(1, 4)
+				case fs.cbpanic && r.Chance(0.25):
+					// a panicking callback only ends this one call (the caller recovers)
+					op.CB.PanicAt = r.Range(1, 6)
 				}
 				if op.M != "ForEach" && r.Chance(0.7) {
 					op.Rect = [4]float64{-180, -90, 180, 90}
